@@ -902,6 +902,28 @@ fn corpus() -> Vec<Vec<Instruction>> {
             CalibrationIdentifier::new("A".into(), vec![GateModifier::Dagger, GateModifier::Forked], vec![real(1.0)], q0()).unwrap(),
             vec![Instruction::Nop()],
         ))],
+        // two calibrations whose keys differ structurally (literal -1.0 vs prefix minus) but print alike
+        // (round 4: C04_counterexample_calibrationKeys); and the harmless sibling with distinct values
+        vec![
+            Instruction::CalibrationDefinition(CalibrationDefinition::new(
+                CalibrationIdentifier::new("X".into(), vec![], vec![real(-1.0)], q0()).unwrap(),
+                vec![Instruction::Nop()],
+            )),
+            Instruction::CalibrationDefinition(CalibrationDefinition::new(
+                CalibrationIdentifier::new("X".into(), vec![], vec![expr::prefix(PrefixOperator::Minus, real(1.0))], q0()).unwrap(),
+                vec![Instruction::Wait()],
+            )),
+        ],
+        vec![
+            Instruction::CalibrationDefinition(CalibrationDefinition::new(
+                CalibrationIdentifier::new("X".into(), vec![], vec![real(-1.0)], q0()).unwrap(),
+                vec![Instruction::Nop()],
+            )),
+            Instruction::CalibrationDefinition(CalibrationDefinition::new(
+                CalibrationIdentifier::new("X".into(), vec![], vec![expr::prefix(PrefixOperator::Minus, real(2.0))], q0()).unwrap(),
+                vec![Instruction::Wait()],
+            )),
+        ],
         // empty bodies / degenerate definitions
         vec![Instruction::CalibrationDefinition(CalibrationDefinition::new(
             CalibrationIdentifier::new("A".into(), vec![], vec![], q0()).unwrap(),
